@@ -625,6 +625,7 @@ REACT = {}        # node id -> {'recv': path from the root, 'call': call}
 RSTATE = {'root': None, 'fuel': 0, 'depth': 0, 'stack': [0], 'next': 1, 'calls': []}
 
 
+READERS = [False]  # handlers READ derived facts of the written node and all its ancestors while the dispatch is going on
 PRE_OBJS = {}      # before the call: absolute path (tuple) -> the symbolic object stored there (all trees of the case)
 
 
@@ -668,6 +669,17 @@ def on_event(rid, updates):
   LOG.append({'recv': rid, 'call': RSTATE['stack'][-1],
               'entries': [[list(k.keys), canon(u.old_value), canon(u.new_value)] for k, u in updates.items()],
               'ident': payload_identity(updates)})
+  if READERS[0]:
+    # a handler that looks at derived state of its surroundings (`self.sym_root.is_partial`, ...): what it
+    # makes the nodes memoise must not survive the call if the contents still change (placeholders dropped)
+    for u in updates.values():
+      n_ = u.target
+      while n_ is not None:
+        try:
+          n_.sym_nondefault(); n_.sym_missing(); bool(n_.is_partial); bool(n_.sym_puresymbolic)
+        except Exception:    # pylint: disable=broad-except
+          pass
+        n_ = n_.sym_parent
   r = REACT.get(rid)
   if r is None or RSTATE['depth'] >= RSTATE['fuel']:
     return
@@ -1052,6 +1064,8 @@ class C09(Prop):
     for c in self.ref_item_cases(rng, 350 if tier == 'quick' else 7000):
       yield c
     for c in self.rejected_write_cases(rng, 400 if tier == 'quick' else 8000):
+      yield c
+    for c in self.reading_handler_cases(rng, 300 if tier == 'quick' else 6000):
       yield c
 
   def read_cases(self, rng, n):
@@ -1610,6 +1624,56 @@ class C09(Prop):
         continue
       yield {'tree': t, 'steps': steps, 'rules': True}
 
+  def reading_handler_cases(self, rng, n):
+    """Every handler READS derived facts (sym_nondefault, sym_missing, is_partial, sym_puresymbolic) of the
+    node that was written and of all its ancestors while the dispatch is still going on. The calls are
+    notified batched rebinds that delete List items (path -> MISSING_VALUE) AND write inside a later
+    item of the same list (its handler runs before the list drops the placeholder), plus ordinary
+    calls; afterwards every memo must be fresh."""
+    g = Gen(rng)
+    made = 0
+    for _ in range(n * 8):
+      if made >= n:
+        break
+      g.next_id = 1
+      g.no_obj = rng.chance(0.3)
+      g.deletes = True
+      t = g.tree(rng.randint(2, 3), rng.choice(['dict', 'list', 'obj']), 1.0)
+      shadow = json.loads(json.dumps(t))
+      steps = []
+      good = False
+      for i in range(rng.randint(1, 3)):
+        lists = [(p, x) for p, x in all_nodes(shadow) if x['k'] == 'list' and len(x['items']) >= 2
+                 and any(is_node(c) and c.get('ref') is None for _, c in x['items'][1:])]
+        if not lists or rng.chance(0.2):
+          path, node = rng.choice(all_nodes(shadow))
+          step = {'recv': path, 'notify': True, 'call': g.call(shadow, path, node)}
+        else:
+          lpath, l = rng.choice(lists)
+          later = [j for j, c in l['items'] if j >= 1 and is_node(c)]
+          j = rng.choice(later)
+          dels = rng.sample(range(j), rng.randint(1, min(2, j)))
+          item = get_at(l, [j])
+          sub_nodes_ = all_nodes(item)
+          ipath, inode = rng.choice(sub_nodes_)
+          k, old = g.target(inode)
+          if k is None:
+            continue
+          cut = rng.randint(0, len(lpath))
+          recv, rel = lpath[:cut], lpath[cut:]
+          pairs = [[rel + [d], MISSING] for d in sorted(dels)] + [[rel + [j] + ipath + [k], g.value(old)]]
+          if get_at(shadow, recv)['k'] == 'list':
+            pairs.sort(key=lambda pv: key_cmp_tuple(pv[0]))
+          step = {'recv': recv, 'notify': True, 'call': {'name': 'rebind', 'pairs': pairs}}
+          good = True
+        steps.append(step)
+        mirror(shadow, json.loads(json.dumps(step)))
+        if any(is_node(n_) and n_['k'] == 'list' and any(is_missing(v_) for _, v_ in n_['items']) for _, n_ in all_nodes(shadow)):
+          break
+      if good:
+        made += 1
+        yield {'tree': t, 'steps': steps, 'readers': True}
+
   def model_request(self, case):
     if case.get('facts_only'):
       return None
@@ -1668,6 +1732,7 @@ class C09(Prop):
     del _KEEP[:]
     REACT.clear()
     RSTATE.update(root=None, fuel=0, depth=0)
+    READERS[0] = False
     workers = []
     # the harness thread starts from "notifications enabled", whatever an earlier case left behind
     with pg.notify_on_change(True):
@@ -1754,6 +1819,7 @@ class C09(Prop):
     for rid, rpath, rcall in case.get('react', []):
       REACT[rid] = {'recv': rpath, 'call': rcall}
     RSTATE.update(root=root, fuel=case.get('fuel', 0), depth=0)
+    READERS[0] = bool(case.get('readers'))
     chosen = case.get('reads') == 'chosen'
     if not chosen:
       read_all(root)
@@ -2234,6 +2300,8 @@ class C09(Prop):
       h.append('re-entrant handlers: fuel %d' % case.get('fuel', 0))
       for o in out['steps']:
         h.append('nested-calls:%d' % min(len(o.get('nested', [])), 6))
+    if case.get('readers'):
+      h.append('handlers-read-derived-facts')
     if case.get('forest'):
       h.append('forest:threads=%d' % case.get('threads', 0))
       if has_ref(case['tree']):
